@@ -2,6 +2,7 @@ package checks
 
 import (
 	"fmt"
+	"os"
 	"sort"
 	"strings"
 
@@ -27,7 +28,7 @@ func exploreProgram(c *harness.Ctx, p Prog, cfg explore.Config, r *harness.Rec, 
 	run := func(prefix []int) *explore.Exec {
 		return explore.RunOnce(p.Text, cfg, prefix, vsched.Options{}, false)
 	}
-	explore.Delay(run, tierDelay(c), capExecs(c), st, func(ex *explore.Exec) bool {
+	explore.Delay(run, tierDelay(c), tierHorizon(c), capExecs(c), st, func(ex *explore.Exec) bool {
 		if first {
 			first = false
 			if !ex.Accepted() {
@@ -58,7 +59,10 @@ func exploreProgram(c *harness.Ctx, p Prog, cfg explore.Config, r *harness.Rec, 
 	} else {
 		r.Add("program_configs_explored", 1)
 		r.Add("distinct_outcomes_total", int64(len(res.outcomes)))
-		r.Sample(map[string]interface{}{"program": p.Name, "config": cfg.String(), "delay_bound": tierDelay(c), "executions": st.Execs, "max_points": st.MaxPoints, "distinct_outcomes": len(res.outcomes)})
+		if os.Getenv("VERIF_DEBUG") != "" {
+			fmt.Fprintf(os.Stderr, "DBG %s %s execs=%d maxpts=%d outcomes=%d\n", p.Name, cfg, st.Execs, st.MaxPoints, len(res.outcomes))
+		}
+		r.Sample(map[string]interface{}{"program": p.Name, "config": cfg.String(), "delay_bound": tierDelay(c), "horizon": tierHorizon(c), "executions": st.Execs, "max_points": st.MaxPoints, "distinct_outcomes": len(res.outcomes)})
 	}
 	return res
 }
@@ -72,7 +76,7 @@ func fuelPanic(ex *explore.Exec) bool {
 	return false
 }
 
-const mcRule = "case = (program, execution mode, monitor on/off); for each case every schedule of the real interpreter with total delay <= d (delay bounding over the canonical enabled order, d=1 quick, d=2 thorough) is executed under the controlled scheduler; states = distinct scheduler-state fingerprints per case (summed), transitions = atomic blocks executed; a case is non-trivial when it has >= 2 scheduling points"
+const mcRule = "case = (program, execution mode, monitor on/off); for each case every schedule of the real interpreter with total delay <= d (delay bounding over the canonical enabled order, d=1 quick, d=2 thorough; deviations from the default scheduler are taken at the first H scheduling points of an execution, H=60 quick, H=150 thorough) is executed under the controlled scheduler; states = distinct scheduler-state fingerprints per case (summed), transitions = atomic blocks executed; a case is non-trivial when it has >= 2 scheduling points"
 
 var mcAssumptions = []string{
 	"interleavings of atomic blocks between channel operations; unsynchronised shared memory inside blocks is C13's subject",
@@ -194,6 +198,7 @@ func init() {
 				full    string
 			}
 			seen := map[string]obs{}
+			seenDone := map[string]obs{}
 			for _, cfg := range cfgs {
 				cfg := cfg
 				res := exploreProgram(c, p, cfg, r, func(ex *explore.Exec) bool {
@@ -206,7 +211,17 @@ func init() {
 							done = "stuck"
 						}
 					}
-					k := "prints={" + ex.PrintMultiset() + "} " + done
+					if cfg.Mode == 2 {
+						// the property claims only the printed multiset for non-polarized mode
+						// (there a dropped provider is never reclaimed and stays blocked)
+						done = "n/a"
+					}
+					k := "prints={" + ex.PrintMultiset() + "}"
+					if done != "n/a" {
+						if _, ok := seenDone[done]; !ok {
+							seenDone[done] = obs{cfg, ex.Res.Choices, ex.OutcomeKey()}
+						}
+					}
 					if _, ok := seen[k]; !ok {
 						seen[k] = obs{cfg, ex.Res.Choices, ex.OutcomeKey()}
 					}
@@ -215,6 +230,9 @@ func init() {
 				if res.skipped != "" {
 					return
 				}
+			}
+			if len(seen) == 1 && len(seenDone) > 1 {
+				seen = seenDone
 			}
 			if len(seen) > 1 {
 				var ks []string
